@@ -59,7 +59,7 @@ def gen_schedule(rng, tier):
                     free[t].remove(k)
                 dcount += 1
                 nm = f"d{dcount}"
-                steps.append({"spawn": {"name": nm, "sql": f"delete from {t} where k in ({', '.join(map(str, keys))})"}, "wait_ms": 400})
+                steps.append({"spawn": {"name": nm, "sql": f"delete from {t} where k in ({', '.join(map(str, keys))})"}, "idle_ms": 300, "wait_ms": 3000})
                 script.append(("spawn", nm, t, keys))
                 pend.append(nm)
             elif pend:
@@ -106,6 +106,8 @@ def analyse(R, h, out):
         # arriving anywhere outside the locked section of the held table releases its lock
         if holder is not None and not (tname == holder and kind in ("pinned", "before_commit", "committed")):
             unlock()
+        if kind == "pass_end":
+            return
         if kind == "locked":
             holder = tname
             ev[tname].append("XCompLock")
